@@ -108,8 +108,12 @@ SPEC_M.append(("ledger.protocol", "HSM2ProtocolLedger", [
     "_advance_blockchain", "_update_ancestor_block"]))
 SPEC_M.append(("ledger.protocol", "HSM2ProtocolLedger", [
     "_check_version", "_wait_and_reconnect", "_handle_bootloader", "initialize_device"]))
+SPEC_M.append(("ledger.protocol_v1", "HSM1ProtocolLedger", [
+    "_error", "_translate_sign_error", "_get_pubkey", "_sign"]))
 # attributes of self that hold another translated object: (class, attribute) -> (module, class)
-ATTR_CLASS = {("HSM2ProtocolLedger", "hsm2dongle"): ("ledger.hsm2dongle", "HSM2Dongle"),
+ATTR_CLASS = {("HSM1ProtocolLedger", "hsm2dongle"): ("ledger.hsm2dongle", "HSM2Dongle"),
+              ("HSM1ProtocolLedger", "protocol_v2"): ("ledger.protocol", "HSM2ProtocolLedger"),
+              ("HSM2ProtocolLedger", "hsm2dongle"): ("ledger.hsm2dongle", "HSM2Dongle"),
               ("HSM2ProtocolLedger", "pin"): ("ledger.pin", "FileBasedPin")}
 # methods of objects whose class the code does not name but whose method name identifies it (pure code)
 METHOD_CLASS = {"supports": ("ledger.version", "HSM2FirmwareVersion")}
